@@ -25,6 +25,43 @@ pub fn generate(g: &mut Gen, thorough: bool) {
             g.push(op_line("default", &[], &[], &def, "apply", "F", &data_of(&pts)), &format!("model-{name}"), true);
         }
     }
+    // omerc with an initial line running due east at the centre (alpha = 90: Hungary, Switzerland), at every
+    // latitude of the centre; with and without gamma_c (Laborde); variants A and B
+    for latc in [4.0, 20.0, 36.0, 45.0, 47.14439372222, -45.0, -20.0, 60.0, 75.0] {
+        for ellps in ["GRS67", "GRS80", "bessel", "intl"] {
+            let (lonc, k_0, x_0, y_0) = (19.04857177778, 0.99993, 650000.0, 200000.0);
+            let centre = [[(lonc as f64).to_radians(), (latc as f64).to_radians(), 0.0, 0.0]];
+            let d = ProjDef { name: "omerc", shape: String::new(), ellps: ellps.into(), lon_0: lonc, lat_0: None, k_0, x_0, y_0, has_lon0: true, has_k0: true, has_xy: true, centre: (lonc, latc), extent: (5.0, 4.0) };
+            let pts = proj::points(&mut g.rng, &d, 6);
+            for shape in ["alpha=90 gamma_c=90 variant", "alpha=90 variant", "alpha=90", "alpha=90 gamma_c=90", "alpha=-90 gamma_c=-90 variant"] {
+                let def = format!("omerc latc={latc} lonc={lonc} {shape} k_0={k_0} x_0={x_0} y_0={y_0} ellps={ellps}");
+                case(g, "conformal", &def, &[1e-7], &pts, "conformal-omerc-due-east");
+                case(g, "scale", &def, &[k_0, 1e-8], &centre, "true-scale-omerc-due-east");
+                g.push(op_line("default", &[], &[], &def, "apply", "F", &data_of(&pts)), "model-omerc-due-east", true);
+                if shape.starts_with("alpha=90") && (shape.contains("variant") || !shape.contains("gamma_c")) {
+                    case(g, "origin", &def, &[x_0, y_0], &centre, "false-origin-omerc-due-east");
+                    g.push(op_line("default", &[], &[], &def, "apply", "F", &data_of(&centre)), "model-origin-omerc-due-east", true);
+                }
+            }
+        }
+    }
+    // omerc without gamma_c (the Laborde case: variant B with gamma_c = alpha), with and without the flag
+    for _ in 0..rounds {
+        let d = proj::random(&mut g.rng, "omerc");
+        let def = d.def();
+        let Some(at) = def.find(" gamma_c=") else { continue };
+        let end = def[at + 1..].find(' ').map(|e| at + 1 + e).unwrap_or(def.len());
+        let def = format!("{}{}", &def[..at], &def[end..]);
+        let pts = proj::points(&mut g.rng, &d, 8);
+        case(g, "conformal", &def, &[1e-7], &pts, "conformal-omerc-laborde");
+        g.push(op_line("default", &[], &[], &def, "apply", "F", &data_of(&pts)), "model-omerc-laborde", true);
+        let alpha: f64 = def.split("alpha=").nth(1).unwrap().split(' ').next().unwrap().parse().unwrap();
+        if alpha.abs() < 90.0 {
+            let centre = [[d.centre.0.to_radians(), d.centre.1.to_radians(), 0.0, 0.0]];
+            case(g, "origin", &def, &[d.x_0, d.y_0], &centre, "false-origin-omerc-laborde");
+            g.push(op_line("default", &[], &[], &def, "apply", "F", &data_of(&centre)), "model-origin-omerc-laborde", true);
+        }
+    }
     // laea preserves areas, in every aspect
     for _ in 0..rounds {
         for lat_0 in [90.0, -90.0, 0.0, 52.0, -30.0] {
